@@ -11,8 +11,12 @@ def gen_stress(rng, prio=True):
     """shapes the anchors name: ambiguity inside inlined rules inlined into inlined rules; a long prioritised rule competing with a decomposition
     whose total lies in between; equal-priority splits of one rule (ties on the whole sort key)"""
     P = (lambda: '.%d' % rng.randint(1, 4)) if prio else (lambda: '')
-    k = rng.randrange(5)
-    if k == 4:
+    k = rng.randrange(7)
+    if k == 5:
+        lines = ['start: a B? | a', 'a%s: | b | b c' % (P() if rng.random() < 0.5 else ''), 'b%s: | c' % P(), 'c%s: | A?' % (P() if rng.random() < 0.5 else '')]
+    elif k == 6:
+        lines = ['start: a | b', 'a%s: A [B]%s' % (P(), rng.choice(['', ' | A'])), 'b%s: A B | A' % P()]
+    elif k == 4:
         # several items of one column waiting on the same nullable nonterminal
         lines = ['start: A n | A n B' + rng.choice(['', ' | A n n', ' | n A n']), 'n: ' + rng.choice(['', '| B', '| m', 'm m']), 'm: ' + rng.choice(['', '| A'])]
     elif k == 0:
@@ -42,7 +46,7 @@ def gen_grammar(rng, prio=True, empties=True):
             syms = []
             for _ in range(k):
                 s = rng.choice(names + terms + terms)
-                if rng.random() < 0.12: s += '?'
+                if rng.random() < 0.12: s = s + '?' if rng.random() < 0.6 else '[%s]' % s
                 syms.append(s)
             s = ' '.join(syms)
             if syms and not n.startswith('_') and rng.random() < 0.15: s += ' -> al%d' % rng.randint(0, 1)
@@ -96,6 +100,30 @@ def deriv_priority(d, term_prio=None):
         elif term_prio:
             p += term_prio.get(c.type, 0)
     return p
+
+
+def empty_preference(d, rules):
+    """the built-in precedence clause: a directly empty alternative may be used only where no non-empty alternative of the same rule matches the same
+    (empty) span, i.e. where no other alternative consists of nullable symbols only.  Returns the offending (rule name, alternative) or None."""
+    nullable = set()
+    changed = True
+    while changed:
+        changed = False
+        for r in rules:
+            if r.origin.name not in nullable and all((not s.is_term) and s.name in nullable for s in r.expansion):
+                nullable.add(r.origin.name); changed = True
+    def walk(x):
+        r, ch = x
+        if not r.expansion:
+            for r2 in rules:
+                if r2.origin == r.origin and r2.expansion and all((not s.is_term) and s.name in nullable for s in r2.expansion):
+                    return [str(r.origin.name), ' '.join(s.name for s in r2.expansion)]
+        for c in ch:
+            if isinstance(c, tuple):
+                w = walk(c)
+                if w: return w
+        return None
+    return walk(d)
 
 
 def has_empty_rule(rules):
@@ -363,7 +391,8 @@ def _forest_case(args):
                                 r, ch = d
                                 return (by_key[(str(r.origin.name), tuple(s.name for s in r.expansion))], [orig(c) if isinstance(c, tuple) else c for c in ch])
                             tp = {t_.name: t_.priority for t_ in base.terminals} if lexer != 'basic' else None
-                            run['resolve'][str(mode)] = {'tree': json.dumps(canon_tree(t)), 'deriv': json.dumps(canon_deriv(orig(chosen))), 'priority': deriv_priority(orig(chosen), tp)}
+                            run['resolve'][str(mode)] = {'tree': json.dumps(canon_tree(t)), 'deriv': json.dumps(canon_deriv(orig(chosen))), 'priority': deriv_priority(orig(chosen), tp),
+                                                         'empty_over_nonempty': empty_preference(chosen, rules)}
                             if mode == 'normal':
                                 pf = Lark(g, parser='earley', lexer=lexer, ambiguity='forest', maybe_placeholders=mp)
                                 root = pf.parse(text)
